@@ -903,9 +903,12 @@ func ordArgs(w *World, r *EngineResult) {
 			var body ast.Node
 			switch x := s.(type) {
 			case *ast.RangeStmt:
-				if sel, ok := x.X.(*ast.SelectorExpr); ok {
-					groupTag = tagOf[sel.Sel.Name]
-				}
+				ast.Inspect(x.X, func(n ast.Node) bool {
+					if sel, ok := n.(*ast.SelectorExpr); ok && tagOf[sel.Sel.Name] != "" && groupTag == "" {
+						groupTag = tagOf[sel.Sel.Name]
+					}
+					return true
+				})
 				body = x.Body
 			case *ast.IfStmt:
 				ast.Inspect(x.Cond, func(n ast.Node) bool {
